@@ -186,8 +186,8 @@ theorem wp_countStep (s : PS) (hs : s.pos < E.pat.length) :
     all_goals (intros; rename_i h'; exact h'.weaken E (by le_tac) rfl rfl rfl)
 
 /-- **the capture pre-scan is total** -/
-theorem wp_countCaptures (s : PS) (hs : s.pos ≤ E.pat.length) :
-    wp (countCaptures E (E.pat.length + 1)) (fun _ s' => s'.pos ≤ E.pat.length) (fun _ => True) s := by
+theorem wp_countCaptures (s : PS) (hs : s.pos ≤ E.pat.length) (n : Nat) (hn : E.pat.length - s.pos < n) :
+    wp (countCaptures E n) (fun _ s' => s'.pos ≤ E.pat.length) (fun _ => True) s := by
   unfold countCaptures
   wp_simp3
   refine wp_iter E _ (fun _ s' => s'.pos ≤ E.pat.length ∧ NamesOK s'.g) _ _ ?_ _ _ _ (by dsimp only; omega)
